@@ -129,6 +129,10 @@ fn k04() -> en::Class {
     c.unary.push(Box::new(|a| Some(Ext(a, true))));
     c.unary.push(Box::new(|a| Some(Ext(a, false))));
     c.unary.push(Box::new(|a| Some(CustomNest(a))));
+    // a parser output iterated by into_iter(): the iterator state must exist in check mode too
+    for s in [Sink::Exactly(1), Sink::Exactly(2), Sink::Vec, Sink::Count] {
+        c.unary.push(Box::new(move |a| Some(IntoIter(a, s.clone()))));
+    }
     c
 }
 
@@ -180,6 +184,16 @@ pub fn units(prop: &str, tier: Tier) -> Option<Vec<Unit>> {
                     .alarm(alarm)
                     .unit(),
                 e1("k02-separated-multibyte", "separated_by() templates on multi-byte text".into(), en::k02_sep(false)).alpha(&ABC, 4).kind(KindId::StrMb).alarm(alarm).unit(),
+                // the bounds / flags of a repetition are fields of the combinator value: they must survive its Clone
+                e1("k02-through-clone", "repeated()/separated_by() templates, every combinator value used through its own Clone impl (original dropped)".into(), {
+                    let mut v = en::k02_rep(false);
+                    v.extend(en::k02_sep(false));
+                    v
+                })
+                .alpha(&ABCOMMA, 4)
+                .alarm(alarm)
+                .clone_mode()
+                .unit(),
             ]
         }
         "C03" => {
@@ -304,10 +318,14 @@ pub fn units(prop: &str, tier: Tier) -> Option<Vec<Unit>> {
                 Unit::Custom { name: "iterinput".into(), run: Box::new(move |cx| eng_inputs::run("iterinput", tier, cx)) },
                 Unit::Custom { name: "cursor-machine".into(), run: Box::new(move |cx| eng_inputs::run("cursor-machine", tier, cx)) },
             ]
+            .into_iter()
+            .chain(eng_pratt::units_spans(tier).into_iter().map(|u| Unit::Custom { name: u.name.clone(), run: Box::new(move |cx| eng_pratt::run_unit(&u, cx)) }))
+            .collect()
         }
         "C08" => {
-            let alarm = ACC | VAL | EXT | EMI | EMC | PSP | PFO | PEX;
+            let alarm = ACC | VAL | EXT | EMI | EMC | PSP | PFO | PEX | EMF;
             vec![
+                class("krecfail-deep", &en::k_recfail(), pick(7, 8)).alpha(&['a', 'b'], pick(4, 5)).alarm(alarm).unit(),
                 class("kext-recovery", &en::k_ext(), pick(4, 4)).len(pick(4, 5)).alarm(alarm).unit(),
                 class("knd-nested-delimiters", &en::k_nd(), pick(3, 4)).alpha(&BRACKETS, pick(4, 5)).alarm(alarm).unit(),
                 e1("kext-statically-typed", "statically typed parsers: extended-class grammars (recovery, validate, labels, map_err, separators) with 2 nodes and a stride of the 3-node ones".into(), vec![]).static_set("ext").len(pick(4, 5)).alarm(alarm).unit(),
@@ -461,6 +479,8 @@ pub fn units(prop: &str, tier: Tier) -> Option<Vec<Unit>> {
                 Unit::Custom { name: "histories".into(), run: Box::new(move |cx| eng_hist::run("histories", tier, cx)) },
                 Unit::Custom { name: "histories-static".into(), run: Box::new(move |cx| eng_hist::run("histories-static", tier, cx)) },
                 Unit::Custom { name: "threads".into(), run: Box::new(move |cx| eng_hist::run("threads", tier, cx)) },
+                // recursive parsers as values: clone / boxed / drop-the-original / parse histories
+                rec_unit("rec-lifecycle", tier),
             ]
         }
         "C14" => eng_text::units(tier)
@@ -473,6 +493,12 @@ pub fn units(prop: &str, tier: Tier) -> Option<Vec<Unit>> {
                 class("kctx", &en::k_ctx(), pick(4, 4)).len(pick(4, 5)).cfg(CfgId::RichCx).probes(CTX).alarm(alarm).unit(),
                 e1("kctx-recursion", format!("guarded recursive bodies (<= {} nodes) over context providers and consumers (with_ctx, map_ctx, then_with_ctx, ignore_with_ctx, just from ctx, repeated at_most from ctx)", pick(5, 6)), en::k_ctx_rec(pick(5, 6)))
                     .len(pick(4, 5))
+                    .cfg(CfgId::RichCx)
+                    .probes(CTX)
+                    .alarm(alarm)
+                    .unit(),
+                e1("ctx-configure-over-static-bounds", "item.repeated().<static bounds>.configure(exactly / at_most / at_least from ctx): 4 items x 18 static bounds x 3 kinds, under with_ctx(a|b|c|d) and then_with_ctx(any), each followed by a rest capture".into(), en::ctx_pre_templates())
+                    .len(pick(5, 6))
                     .cfg(CfgId::RichCx)
                     .probes(CTX)
                     .alarm(alarm)
@@ -500,6 +526,10 @@ pub fn units(prop: &str, tier: Tier) -> Option<Vec<Unit>> {
                 class("kext-label-content", &en::k_ext(), pick(3, 4)).alarm(ACC | VAL | PSP | PEX | PCX | EMC | EMI).unit(),
                 class("klabel-deep-content", &en::k_label(), pick(5, 6)).alarm(ACC | VAL | PSP | PEX | PCX | EMC | EMI).unit(),
                 class("klabelctx-deep-content", &en::k_labelctx(), pick(7, 8)).alarm(ACC | VAL | PSP | PEX | PCX | EMC | EMI).unit(),
+                e1("kmaperr-deep-content", format!("every Kmaperr grammar (map_err / try_map / or_not / labelled.as_context over then / or) with <= {} nodes that contains map_err", pick(7, 8)), en::k_maperr().upto(pick(7, 8)).into_iter().filter(|g| g.any_node(&|x| matches!(x, MapErr(_)))).collect())
+                    .alpha(&['a', 'b'], pick(3, 4))
+                    .alarm(ACC | VAL | PSP | PEX | PCX | EMC | EMI)
+                    .unit(),
             ]
         }
         "C18" => {
@@ -508,6 +538,8 @@ pub fn units(prop: &str, tier: Tier) -> Option<Vec<Unit>> {
                 class("kstate-str", &en::k_state(), pick(3, 4)).cfg(CfgId::RichSt).probes(STATE).alarm(alarm).unit(),
                 class("kstate-slice", &en::k_state(), pick(3, 3)).kind(KindId::Slice).cfg(CfgId::RichSt).probes(STATE).alarm(alarm).unit(),
                 class("kstate-stream", &en::k_state(), pick(3, 3)).kind(KindId::Stream).cfg(CfgId::RichSt).probes(STATE).alarm(alarm).unit(),
+                // every InputRef operation (next / peek / skip / save / rewind / parse / check) with an inspector snapshot after each step
+                Unit::Custom { name: "cursor-machine".into(), run: Box::new(move |cx| eng_inputs::run("cursor-machine", tier, cx)) },
             ]
         }
         "C19" => eng_drops::unit_names().into_iter().map(|n| Unit::Custom { name: n.to_string(), run: Box::new(move |cx| eng_drops::run(n, tier, cx)) }).collect(),
